@@ -222,6 +222,9 @@ def overwrite_case(draw):
             'overwrite': draw(st.booleans()),
             'ext': None}
     case['ext'] = draw(st.sampled_from(FMT_EXT[case['fmt']]))
+    # the existing HDF5 file may be named by a pathlib.Path: the refusal holds for it as well
+    case['as_pathlib'] = case['fmt'] == 'hdf5' and case['target'] == 'path' and not case['overwrite'] \
+        and draw(st.booleans())
     if kind == 'rdms':
         case['old'] = draw(rdms_spec(allow_uni=False, small=True))
         case['new'] = draw(rdms_spec(allow_uni=False, small=True))
@@ -680,18 +683,32 @@ def check_overwrite(case):
             if fmt == 'hdf5' and case['target'] == 'path':
                 # the guard: refuse, leave the file alone
                 try:
-                    new.save(tgt.path, file_type=fmt, overwrite=False)
+                    if case.get('as_pathlib'):
+                        import pathlib
+                        new.save(pathlib.Path(tgt.path), file_type=fmt, overwrite=False)
+                    else:
+                        new.save(tgt.path, file_type=fmt, overwrite=False)
                 except ValueError:
                     pass
+                except OSError as e:
+                    # (a Path is refused by the file layer today, not by the guard: any refusal
+                    # that leaves the file alone is accepted for it)
+                    if not case.get('as_pathlib'):
+                        raise Violation('saving onto an existing HDF5 path raises %s instead of '
+                                        'ValueError: %s' % (type(e).__name__, e), 'guard:wrong-error')
                 except Exception as e:  # noqa: BLE001
                     raise Violation('saving onto an existing HDF5 path raises %s instead of ValueError: '
                                     '%s' % (type(e).__name__, e), 'guard:wrong-error')
                 else:
                     raise Violation('saving onto an existing HDF5 path with overwrite=False did not '
                                     'raise', 'guard:no-error')
-                with open(tgt.path, 'rb') as f:
-                    require(f.read() == bytes0, 'refused save modified the existing file',
-                            'guard:file-changed')
+                if not case.get('as_pathlib'):
+                    # (refused before the file is opened: not a byte changes; a Path is refused by the
+                    # file layer after opening it for appending, which may touch file metadata --
+                    # there the file must still hold exactly the old object, checked below)
+                    with open(tgt.path, 'rb') as f:
+                        require(f.read() == bytes0, 'refused save modified the existing file',
+                                'guard:file-changed')
                 lo = load_obj(loader, tgt, 'after refused save')
                 _cmp_any(kind, lo, old, case['old'], 'guard:old-object')
             return      # pickle / handles without overwrite: nothing is promised
@@ -704,7 +721,8 @@ def check_overwrite(case):
 
 def classify_overwrite(case):
     return (['kind:' + case['kind'], 'fmt:' + case['fmt'], 'target:' + case['target'],
-             'overwrite:%s' % case['overwrite']], True)
+             'overwrite:%s' % case['overwrite'], 'pathlib' if case.get('as_pathlib') else 'str-or-handle'],
+            True)
 
 
 
